@@ -143,6 +143,19 @@ def build_params(spec):
 
 
 def build_model(spec, force_exp=None):
+    if spec.get("spot_moved") and spec.get("exp") and force_exp is not False:
+        # the model is built at another spot, the spot is then assigned (a validated, assignable attribute)
+        e = spec["exp"]
+        other = dict(spec, exp=dict(e, spot=float(f"{e['spot'] * spec['spot_moved']:.6g}")))
+        other.pop("spot_moved")
+        model = build_model(other, force_exp=force_exp)
+        model.spot = e["spot"]
+        return model
+    if spec.get("added_sigma") and force_exp is not True:
+        inner = build_model({k: v for k, v in spec.items() if k != "added_sigma"}, force_exp=False)
+        from vlib.usermodels import JumpsPlusBrownianModel
+
+        return JumpsPlusBrownianModel(inner, float(spec["added_sigma"]))
     fam = spec["family"]
     params = build_params(spec)
     e = spec.get("exp")
